@@ -12,7 +12,7 @@ import (
 )
 
 // C11 — input grammar: accept exactly the documented language, report every violation.
-// All strings up to length L over a 15-character alphabet (incl. a non-ASCII letter and a line feed) in each of 26 grammar positions, token words
+// All strings up to length L over a 15-character alphabet (incl. a non-ASCII letter and a line feed) in each of 28 grammar positions, token words
 // in the structured positions, structural truth tables, k-subsets of simultaneous defects, todo exemption.
 
 type c11pos struct {
@@ -99,6 +99,8 @@ func c11positions() []c11pos {
 		}, IsYamlToken, []string{`"sut"`, "args", "1"}, "compile"},
 		{"arg-value", svc(func(s *Service, x string) { s.Args = []any{"!value " + x} }), func(x string) bool { k, _, wf := ArgKind("!value " + x); return k == "value" && wf }, []string{`"sut"`, "args", "0"}, "compile"},
 		{"arg-tagged", svc(func(s *Service, x string) { s.Fields = []KV{{"F1", "!tagged " + x}} }), func(x string) bool { k, _, wf := ArgKind("!tagged " + x); return k == "tagged" && wf }, []string{`"sut"`, "fields", "F1"}, "compile"},
+		{"arg-value-after-keyword", svc(func(s *Service, x string) { s.Args = []any{"!value" + x} }), func(x string) bool { k, _, wf := ArgKind("!value" + x); return k != "value" || wf }, []string{`"sut"`, "args", "0"}, "compile"},
+		{"arg-tagged-after-keyword", svc(func(s *Service, x string) { s.Calls = []Call{{Method: "Set1", Args: []any{"!tagged" + x}}} }), func(x string) bool { k, _, wf := ArgKind("!tagged" + x); return k != "tagged" || wf }, []string{`"sut"`, "calls"}, "compile"},
 		{"scope", svc(func(s *Service, x string) { s.Scope = P(x) }), func(x string) bool { return x == "shared" || x == "contextual" || x == "non_shared" }, nil, "decode"},
 	}
 }
@@ -199,7 +201,7 @@ func init() {
 	Register(&Check{
 		ID:    "C11",
 		Level: "exploration",
-		Rule: "(1) every string of length <= 3 (quick) / <= 4 (thorough) over {a, Z, 1, ., -, _, /, \", *, &, {, }, space, é, line feed} in each of 26 grammar positions (names, identifiers, import, type, value, constructor, function, getter, decorator, @ / !value / !tagged arguments, scope keyword): verdict = hand-written recogniser, rejection names the offending key; " +
+		Rule: "(1) every string of length <= 3 (quick) / <= 4 (thorough) over {a, Z, 1, ., -, _, /, \", *, &, {, }, space, é, line feed} in each of 28 grammar positions (names, identifiers, import, type, value, constructor, function, getter, decorator, @ / !value / !tagged arguments, scope keyword): verdict = hand-written recogniser, rejection names the offending key; " +
 			"(2) every token word of length <= 4 (quick) / <= 6 (thorough) over {&, *, \", a, B1, ., /, {}} in the 7 structured positions; (3) truth tables: creation rules (2^3 x 2), reserved getters, todo exemption, 17 primitive and 5 composite value kinds x 5 value positions; (4) every 1-, 2- (thorough: 3-) subset of 25 validation-stage defects and of 8 compile-stage defects: all reported in one run, each naming its key. non-trivial = string in the position's language boundary (rejected, or accepted with a non-identifier character); distinct = distinct (position, string)",
 		Assumptions: []string{
 			"the documented grammar is docs/*.md plus internal/pkg/regex/consts.go, re-implemented as hand-written scanners (no regexp)",
@@ -641,6 +643,19 @@ func init() {
 						})
 					}
 				}
+			}
+			// the violations are found and named however the YAML presents the configuration
+			for _, sel := range [][]int{{}, {0, 3, 9}, {12, 13, 14}, {5, 10, 17, 22}, {1, 16, 18, 24}} {
+				sel := sel
+				w.Case(fmt.Sprintf("yaml-presentation/defects%v", sel), func(c *C) {
+					cfg := c11base()
+					ds := c11defects()
+					for _, i := range sel {
+						ds[i].apply(cfg)
+					}
+					c.Distinct("all", c.ID)
+					w.ShapeInvarianceOK(c, c.ID, []File{{"c.yaml", cfg.YAML()}}, len(sel) == 0)
+				})
 			}
 			multi("validate", c11defects(), "compiler.StepValidateInput:")
 			multi("compile", c11compileDefects(), "compiler.StepCompile")
